@@ -107,12 +107,13 @@ class BodyIndex:
 
 
 class Tracer:
-    def __init__(self, facts, max_depth=3, inline=None, no_inline=()):
+    def __init__(self, facts, max_depth=3, inline=None, no_inline=(), through_casts=False):
         self.facts = facts
         self.max_depth = max_depth
         self._idx = {}
         self.no_inline = tuple(no_inline)
         self.inline = inline  # optional predicate(path) -> bool
+        self.through_casts = through_casts
 
     def index(self, body):
         p = body["path"]
@@ -204,6 +205,8 @@ class Tracer:
         if k == "Unary":
             return {("unop", e["op"], e.get("ln"))}
         if k == "Cast":
+            if self.through_casts:
+                return T(e["e"])
             return {("cast", e.get("from"), e.get("ty"), e.get("ln"))}
         if k == "Index":
             return T(e["e"], (("elem",),) + path)
@@ -256,6 +259,8 @@ class Tracer:
         args = e.get("args", [])
         if cal is None:
             return {("other", "indirect-call", e.get("ln"))}
+        if (gen or "").startswith(("core::panicking::", "std::rt::begin_panic", "core::option::expect_failed", "core::result::unwrap_failed")):
+            return set()    # diverges: contributes no value
         if gen in PASS_FIRST or cal in PASS_FIRST:
             if args:
                 return self.trace(body, args[0], path, depth, seen, ctx)
